@@ -15,15 +15,22 @@ EXPLANATION = (
     "proto field that the encoder filled from X (closer_peers/provider_peers/key/record/value cannot be crossed). KadPeer: id <-> node_id.to_bytes, "
     "addrs <-> multiaddrs, connection <-> connection_ty. The Codec hands B::try_from(decoded message) through, errors included. Panic inventory over "
     "Codec::decode, proto_to_req_msg, proto_to_resp_msg, record_from_proto, KadPeer::try_from, their closures and crate-local callees (depth 3): "
-    "no unwrap/expect/index/slice/assert site; the single `Instant + Duration` is bounded by a u32 number of seconds.")
+    "no unwrap/expect/index/slice/assert site; the single `Instant + Duration` is bounded by a u32 number of seconds. Expiry presence round trip "
+    "(shared with C42): every ttl record_to_proto can write for `expires = Some(_)` is >= 1 and record_from_proto maps ttl > 0 to Some, ttl == 0 to None.")
 ASSUMPTIONS = ["prost / prost_codec length-delimited decoding returns Err (not panic) on malformed bytes (external crates; prost_codec is checked by its own property)",
                "value-level round trip of lossy fields is not claimed: record expiry is re-based on the receiver's clock in whole seconds, multiaddrs gain a /p2p suffix"]
+TECHNIQUE = ("All patterns are evaluated on a normalised view of the MIR facts (vrules/lib_kad.canon): parameters by position, every "
+             "single-definition local expanded to its initialiser, closure captures by index, trivial crate-local helpers (accessors, one-comparison "
+             "predicates, one-line constructors) replaced by their bodies, private fields resolved by their type, comparisons normalised over operand "
+             "order / mirrored operators / method-call form / `!`, guard sets closed under bool hoisting. Behaviour-preserving refactorings that must stay "
+             "silent are archived in /verif/neutral/kad (01-12 and x1-author-combinators.diff).")
 SELFTEST = [
     {"mutation": "resp_msg_to_proto: FindNode encoded with MessageType::GetProviders", "caught_by": "table/response: decode(encode(FindNode)) = FindNode"},
     {"mutation": "proto_to_req_msg: GetValue arm builds GetProviders", "caught_by": "table/request: decode(encode(GetValue)) = GetValue"},
     {"mutation": "proto_to_resp_msg GetProviders: closer_peers read from message.provider_peers", "caught_by": "fields/response GetProviders.closer_peers is decoded from the field it was encoded into"},
     {"mutation": "record_from_proto: PeerId::from_bytes(..).unwrap() instead of map_err", "caught_by": "nopanic/decode path: panic-capable `unwrap` sites <= 0"},
     {"mutation": "From<KadPeer> for proto::Peer: id from a different peer field", "caught_by": "fields/KadPeer encode"},
+    {"mutation": "seeded C44: `.max(1)` clamp dropped in record_to_proto (sub-second lifetime -> ttl 0 -> decodes as no expiry)", "caught_by": "expiry/every encoded ttl of a record with an expiry is >= 1"},
 ]
 
 P = r"^libp2p_kad::protocol::"
@@ -48,6 +55,14 @@ def deep_text(b, e, depth=0, seen=None):
     if depth > 6:
         return " ".join(out)
     for x in mir.walk(e):
+        if x[0] == "call":
+            # a value built in place through a reference-like temporary (`vec![..]` box): include what is written through it
+            for l, ds in b.defs.items():
+                if isinstance(l, int) and len(ds) == 1 and ds[0][0] == "call" and ds[0][1] == x[3] and b.defs.get((l, "partial")) and ("p", l) not in seen:
+                    seen.add(("p", l))
+                    for d in b.defs[(l, "partial")]:
+                        if d[0] == "stmt":
+                            out.append(deep_text(b, b.rvalue_expr(d[3]), depth + 1, seen))
         if x[0] == "local" and x[1] not in seen:
             seen.add(x[1])
             for d in b.defs.get(x[1], []) + b.defs.get((x[1], "partial"), []):
@@ -83,7 +98,7 @@ def arm_sites(b, sw, tgt, sites):
 
 
 def encoder_table(ctx, b, adt_pat):
-    sw, arms = arm_table(b, r"^discr\(kad_msg\)$")
+    sw, arms = arm_table(b, r"^discr\(#1\)$")
     ags = b.agg_sites(r"proto::dht_pb::Message$")
     tab, fields = {}, {}
     for v, t in arms.items():
@@ -97,7 +112,7 @@ def encoder_table(ctx, b, adt_pat):
         tab[v] = m.group(1) if m else "?" + render(f.get("type", ("unknown", "?")))[:60]
         fl = {}
         for name, fe in f.items():
-            xs = set(re.findall(r"kad_msg@%s\.(\w+)" % v, deep_text(b, fe)))
+            xs = set(re.findall(r"#1@%s\.(\w+)" % v, deep_text(b, fe)))
             if xs:
                 fl[name] = xs
         fields[v] = fl
@@ -105,7 +120,14 @@ def encoder_table(ctx, b, adt_pat):
 
 
 def decoder_table(ctx, b, adt_pat):
-    sw, arms = arm_table(b, r"^discr\(<std::result::Result as std::ops::Try>::branch\(std::result::Result::map_err\(libp2p_kad::<proto::dht_pb::message::MessageType as std::convert::TryFrom>::try_from\(message\.type\), closure:.*\)\)@Continue\.0\)$")
+    sw, arms = None, {}
+    for bi in sorted(b.live):       # the match on the decoded MessageType (reached through `?`, `match`, `let-else`, ...)
+        info = b.switch_info(bi)
+        if info and "MessageType as std::convert::TryFrom>::try_from(#1.type)" in render(info[0]):
+            labs = {l for ls in info[1].values() for l in ls}
+            if {"Ping", "FindNode", "GetValue", "PutValue"} <= labs:
+                sw, arms = bi, {l: t for t, ls in info[1].items() for l in ls}
+                break
     rets = lk.ret_sites(b)
     tab, fields = {}, {}
     for t_name, t in arms.items():
@@ -125,13 +147,13 @@ def decoder_table(ctx, b, adt_pat):
         for x in oks:
             fl = {}
             for name, fe in x[4]:
-                fl[name] = set(re.findall(r"message\.(\w+)", deep_text(b, fe)))
+                fl[name] = set(re.findall(r"#1\.(\w+)", deep_text(b, fe)))
             fields[x[3]] = fl
     return tab, fields
 
 
 def check(ctx):
-    prog = ctx.prog
+    prog = lk.canon(ctx)
     mir.RENDER_MAX[0] = 40
     try:
         check_tables(ctx, prog)
@@ -139,6 +161,9 @@ def check(ctx):
         check_peer(ctx, prog)
     finally:
         mir.RENDER_MAX[0] = 14
+    # a record with an expiry round-trips as a record with an expiry (encoder never writes ttl 0 for Some, decoder maps >0 -> Some, 0 -> None);
+    # the clauses are shared with C42
+    lk.record_ttl_clauses(ctx, prog, "expiry")
     check_nopanic(ctx, prog)
 
 
@@ -172,28 +197,29 @@ def check_tables(ctx, prog):
                 ok = bool(dec_from) and dec_from <= enc_into
                 ctx.ob("fields", "%s %s.%s is decoded from the field it was encoded into" % (kind, v, x), ok, lk.where(dec), "encoded into proto field(s) %s, decoded from %s" % (sorted(enc_into), sorted(dec_from)))
     # entry points delegate
-    for pat, want in ((r"protocol::KadRequestMsg as std::convert::TryFrom>::try_from$", "libp2p_kad::protocol::proto_to_req_msg(message)"),
-                      (r"protocol::KadResponseMsg as std::convert::TryFrom>::try_from$", "libp2p_kad::protocol::proto_to_resp_msg(message)")):
+    for pat, want in ((r"protocol::KadRequestMsg as std::convert::TryFrom>::try_from$", "libp2p_kad::protocol::proto_to_req_msg(#1)"),
+                      (r"protocol::KadResponseMsg as std::convert::TryFrom>::try_from$", "libp2p_kad::protocol::proto_to_resp_msg(#1)")):
         b = ctx.body(K, pat)
         rs = [R(b, s) for s in lk.ret_sites(b)]
         ctx.ob("table", "TryFrom<proto::Message> delegates to the table function", rs == [want], lk.where(b), str(rs))
     froms = [raw_body(ctx, r"impl std::convert::From<protocol::KadRequestMsg> for proto::dht_pb::Message>::from$"), raw_body(ctx, r"impl std::convert::From<protocol::KadResponseMsg> for proto::dht_pb::Message>::from$")]
     rs = sorted(R(b, s) for b in froms for s in lk.ret_sites(b))
-    ctx.ob("table", "From<Kad*Msg> for proto::Message delegate to the table functions", rs == ["libp2p_kad::protocol::req_msg_to_proto(kad_msg)", "libp2p_kad::protocol::resp_msg_to_proto(kad_msg)"], msg=str(rs))
+    ctx.ob("table", "From<Kad*Msg> for proto::Message delegate to the table functions", rs == ["libp2p_kad::protocol::req_msg_to_proto(#1)", "libp2p_kad::protocol::resp_msg_to_proto(#1)"], msg=str(rs))
+    CODEC = lk.fld(prog, r"protocol::Codec$", r"^prost_codec::Codec<")
     cd = ctx.body(K, r"protocol::Codec as asynchronous_codec::Decoder>::decode$")
     t = " ".join(R(cd, s) for s in cd.call_sites())
-    ok = "std::option::Option::map(" in t and "fn:std::convert::TryFrom::try_from" in t and "std::option::Option::transpose(" in t and "prost_codec::Codec as asynchronous_codec::Decoder>::decode(self.codec, src)" in t
+    ok = "std::option::Option::map(" in t and "fn:std::convert::TryFrom::try_from" in t and "std::option::Option::transpose(" in t and "prost_codec::Codec as asynchronous_codec::Decoder>::decode(self.%s, #2)" % CODEC in t
     ctx.ob("table", "Codec::decode = inner decode, then B::try_from on the message, errors propagated", ok, lk.where(cd), t[:300])
     ce = ctx.body(K, r"protocol::Codec as asynchronous_codec::Encoder>::encode$")
     t = " ".join(R(ce, s) for s in ce.call_sites())
-    ctx.ob("table", "Codec::encode = item.into() then inner encode", "asynchronous_codec::Encoder>::encode(self.codec, std::convert::Into::into(item), dst)" in t, lk.where(ce), t[:300])
+    ctx.ob("table", "Codec::encode = item.into() then inner encode", "asynchronous_codec::Encoder>::encode(self.%s, std::convert::Into::into(#2), #3)" % CODEC in t, lk.where(ce), t[:300])
 
 
 def int_table(b):
     """switch on the integer argument -> {int|'otherwise': rendered result}"""
     for bi in sorted(b.live):
         info = b.switch_info(bi)
-        if info and render(info[0]) == "value":
+        if info and render(info[0]) == "#1":
             out = {}
             for t, ls in info[1].items():
                 vals = sorted({R(b, s) for s in lk.ret_sites(b) if s.bb in b.reachable([t])})
@@ -217,7 +243,7 @@ def check_enums(ctx, prog):
     for pat, src, dst in ((r"^libp2p_kad::<protocol::ConnectionType as std::convert::From<proto::dht_pb::message::ConnectionType>>::from$", "proto::dht_pb::message::ConnectionType", "protocol::ConnectionType"),
                           (r"impl std::convert::From<protocol::ConnectionType> for proto::dht_pb::message::ConnectionType>::from$", "protocol::ConnectionType", "proto::dht_pb::message::ConnectionType")):
         b = raw_body(ctx, pat)
-        sw, arms = arm_table(b, r"^discr\(\w+\)$")
+        sw, arms = arm_table(b, r"^discr\(#1\)$")
         tab = {}
         for v, t in arms.items():
             vals = sorted({R(b, s) for s in arm_sites(b, sw, t, lk.ret_sites(b))})
@@ -232,17 +258,17 @@ def check_peer(ctx, prog):
     ctx.floor("fields", "proto::Peer construction", ags, 1, exact=True)
     for s in ags:
         f = {k: render(v) for k, v in enc.site_expr(s)[4]}
-        ok = f.get("id") == "libp2p_core::PeerId::to_bytes(peer.node_id)" and "peer.multiaddrs" in f.get("addrs", "") and "peer.node_id" not in f.get("addrs", "") and "peer.connection_ty" in f.get("connection", "") and "as i32" in f.get("connection", "")
+        ok = f.get("id") == "libp2p_core::PeerId::to_bytes(#1.node_id)" and "#1.multiaddrs" in f.get("addrs", "") and "#1.node_id" not in f.get("addrs", "") and "#1.connection_ty" in f.get("connection", "") and "as i32" in f.get("connection", "")
         ctx.ob("fields", "KadPeer encode: id <- node_id, addrs <- multiaddrs, connection <- connection_ty", ok, s.loc(), str(f)[:400])
     dec = ctx.body(K, r"protocol::KadPeer as std::convert::TryFrom>::try_from$")
     oks = [s for s in dec.agg_sites(r"^libp2p_kad::protocol::KadPeer$")]
     ctx.floor("fields", "KadPeer construction", oks, 1, exact=True)
     for s in oks:
         f = {k: render(v) for k, v in dec.site_expr(s)[4]}
-        ok = "libp2p_core::PeerId::from_bytes(" in f.get("node_id", "") and "peer.id" in f.get("node_id", "") and "peer.connection" in f.get("connection_ty", "") and "ConnectionType as std::convert::TryFrom>::try_from(peer.connection)" in f.get("connection_ty", "")
+        ok = "libp2p_core::PeerId::from_bytes(" in f.get("node_id", "") and "#1.id" in f.get("node_id", "") and "#1.connection" in f.get("connection_ty", "") and "ConnectionType as std::convert::TryFrom>::try_from(#1.connection)" in f.get("connection_ty", "")
         ctx.ob("fields", "KadPeer decode: node_id <- id, connection_ty <- connection", ok, s.loc(), str(f)[:400])
     it = [R(dec, s) for s in dec.call_sites(r"IntoIterator>::into_iter$")]
-    ctx.ob("fields", "KadPeer decode: multiaddrs <- addrs", any("peer.addrs" in x for x in it), lk.where(dec), str(it)[:200])
+    ctx.ob("fields", "KadPeer decode: multiaddrs <- addrs", any("#1.addrs" in x for x in it), lk.where(dec), str(it)[:200])
     pushes = dec.call_sites(r"Vec::push$")
     for s in pushes:
         ctx.guarded("fields", "KadPeer decode: only successfully parsed addresses are kept", s, lambda c, r, l: l == "Ok" and "libp2p_core::Multiaddr as std::convert::TryFrom>::try_from(" in r, "Multiaddr::try_from(addr) is Ok")
@@ -262,7 +288,7 @@ def check_nopanic(ctx, prog):
     for b, k, det, s in inv:
         if k == "time":
             t = R(b, s)
-            ctx.ob("nopanic", "the only Instant arithmetic adds a u32 number of seconds", t == "<web_time::Instant as std::ops::Add>::add(web_time::Instant::now(), web_time::Duration::from_secs((record.ttl as u64)))", s.loc(), t)
+            ctx.ob("nopanic", "the only Instant arithmetic adds a u32 number of seconds", t == "<web_time::Instant as std::ops::Add>::add(web_time::Instant::now(), web_time::Duration::from_secs((#1.ttl as u64)))", s.loc(), t)
     a = prog.adt(K, r"dht_pb::Record$")
     ty = {f["n"]: f["ty"] for f in a["variants"][0]["fields"]}
     ctx.ob("nopanic", "proto::Record.ttl is a u32", ty.get("ttl") == "u32", msg=str(ty.get("ttl")))
@@ -276,3 +302,23 @@ def check_nopanic(ctx, prog):
             if t and t["k"] == "assert" and t["msg"].startswith("overflow"):
                 ov.append("%s@%s" % (t["msg"], mir.Site(b, bi).loc()))
     ctx.ob("nopanic", "no checked arithmetic (overflow assert) on decoded data", not ov, msg=str(ov)[:300])
+
+# thorough-tier sensitivity self-test (vrules/selftest.py): one-edit variants of the source that break the property
+MUTANTS = [
+    {"name": 'response FindNode encoded as GetProviders', "file": 'protocols/kad/src/protocol.rs',
+     "find": '        KadResponseMsg::FindNode { closer_peers } => proto::Message {\n            r#type: proto::MessageType::FindNode as i32,',
+     "replace": '        KadResponseMsg::FindNode { closer_peers } => proto::Message {\n            r#type: proto::MessageType::GetProviders as i32,',
+     "expect": '^table/response: decode\\(encode\\(FindNode\\)\\)', "why": 'FindNode decodes as GetProviders'},
+    {"name": 'publisher parsed with unwrap', "file": 'protocols/kad/src/protocol.rs',
+     "find": '        PeerId::from_bytes(&record.publisher)\n            .map(Some)\n            .map_err(|_| invalid_data("Invalid publisher peer ID."))?',
+     "replace": '        Some(PeerId::from_bytes(&record.publisher).unwrap())',
+     "expect": '^nopanic/decode path: panic-capable `unwrap`', "why": 'remote-triggered panic'},
+    {"name": 'request GetValue decoded as GetProviders', "file": 'protocols/kad/src/protocol.rs',
+     "find": '        proto::MessageType::GetValue => Ok(KadRequestMsg::GetValue {\n            key: record::Key::from(message.key),\n        }),',
+     "replace": '        proto::MessageType::GetValue => Ok(KadRequestMsg::GetProviders {\n            key: record::Key::from(message.key),\n        }),',
+     "expect": '^table/request: decode\\(encode\\(GetValue\\)\\)', "why": 'wrong variant'},
+    {"name": 'ttl clamp dropped', "file": 'protocols/kad/src/protocol.rs',
+     "find": '                        .unwrap_or(u32::MAX)\n                        .max(1)\n',
+     "replace": '                        .unwrap_or(u32::MAX)\n',
+     "expect": '^expiry/every encoded ttl', "why": 'expiry lost in the round trip'},
+]
